@@ -116,14 +116,15 @@ def check_literal(rep, impl, r, lit, wrap=None):
         if got != full:
             rep.violation("pattern does not find its own literal text", input=dict(inp, line=hay, found=got), **{"class": kc or "self-not-found"})
             return rx
-    for miss in near_misses(r, text) + case_flips(text):
-        line = "pre " + (miss if wrap is None else wrap[1] + miss + wrap[3]) + " post"
-        if full in line:
-            continue
-        got = found_text(pobj, line)
-        if got:
-            rep.violation("pattern matches a line that does not contain its literal text", input=dict(inp, line=line, found=got), **{"class": kc or "matches-other-text"})
-            return rx
+    for miss in near_misses(r, text) + case_flips(text) + ([text.strip()] if text.strip() != text and text.strip() else []):
+        for l_, r_ in (("pre ", " post"), ("<", ">")):
+            line = l_ + (miss if wrap is None else wrap[1] + miss + wrap[3]) + r_
+            if full in line:
+                continue
+            got = found_text(pobj, line)
+            if got:
+                rep.violation("pattern matches a line that does not contain its literal text", input=dict(inp, line=line, found=got), **{"class": kc or "matches-other-text"})
+                return rx
     return rx
 
 
